@@ -118,6 +118,11 @@ def gen_plan(rng, tier, i):
     real_eop = rng.random() < 0.35
     import random
 
+    if random.Random("c14-int:" + repr(obj["cov_seed"])).random() < 0.12:
+        obj["cov_kind"] = random.Random("c14-intk:" + repr(obj["cov_seed"])).choice(["int_diag", "int_full"])
+        if twin:
+            twin["cov_kind"] = "full"
+
     child = random.Random("c14-child:" + repr(obj["cov_seed"]) + repr(len(ops)))  # operations added after the first version: own generator, earlier plans keep their draws
     for o_ in ops:
         if o_["op"] == "reattach" and child.random() < 0.6:
@@ -140,6 +145,12 @@ def psd(seed, kind):
         scale[3:] *= 1e-4
     if kind == "diag":
         return np.diag(scale**2)
+    if kind in ("int_diag", "int_full"):
+        # whole numbers held in an integer array (a matrix typed in by hand, read from a table of integers): the same matrix
+        if kind == "int_diag":
+            return np.diag(rs.randint(1, 400, size=6)).astype(np.int64)
+        a = rs.randint(-9, 10, size=(6, 6))
+        return (a @ a.T).astype(np.int64)
     if kind == "rank2":
         a = rs.normal(size=(6, 2)) * scale[:, None]
         m = a @ a.T
